@@ -627,8 +627,7 @@ Definition publish_ok (o : oracle) (s : fsstate) (ps : pstate) (k : N) : option 
            match vns s (TempFile k) with
            | Some _ =>
                if forallb (stableb o s) (pnames o v1) &&
-                  match version_contents o v1 with Some _ => true | None => false end &&
-                  safe_name s (Current :: opnames o dv ++ pnames o v1) (TempFile k)
+                  match version_contents o v1 with Some _ => true | None => false end
                then Some v1 else None
            | None => None
            end
